@@ -174,7 +174,7 @@ EvalOp(e, env) ==
 Eval(e, env) ==
   TLCEval(CASE e.k = "int" -> e.v
     [] e.k = "id" -> IdVal(env, e.n, e.w)
-    [] e.k = "mem" -> LoadLE(env, IF e.g = <<>> THEN Zero(16) ELSE Norm(Eval(e.g[1], env), 16), Eval(e.a[1], env), e.w \div 8)
+    [] e.k = "mem" -> LoadLE(env, Zero(16), Eval(e.a[1], env), e.w \div 8)     \* flat model: a segment annotation does not select another address space
     [] e.k = "slice" -> Slice(Eval(e.a[1], env), e.lo, e.hi)
     [] e.k = "cond" -> IF IsZero(Eval(e.a[1], env)) THEN Eval(e.a[3], env) ELSE Eval(e.a[2], env)
     [] e.k = "compose" -> ComposeAll(e, env, 1, Zero(Width(e)))
